@@ -60,7 +60,11 @@ def lay_out(rnd, seq, meta):
         meta["leading_blank"] = True
     if rnd.random() < 0.55:
         meta["header"] = True
-        lines.append(">" + rnd.choice((
+        if rnd.random() < 0.03:
+            meta["long_header"] = True
+            lines.append(">" + " ".join(rnd.choice(("ACTIN", "ALPHA", "kinase", "sp|Q9", "OS=Homo", "12", "*", "GN=X")) for _ in range(rnd.randrange(1500, 4000))))
+        else:
+            lines.append(">" + rnd.choice((
             "sp|P04637|P53_HUMAN Cellular tumor antigen p53 OS=Homo sapiens", "seq1", "", "x * 12 >> ACDEFG * lower case too",
             "1", "id=%d len=%d *" % (rnd.randrange(1000), len(seq)))))
     style = rnd.choice(("plain", "plain", "ragged", "grouped", "single", "one_per_line"))
@@ -280,7 +284,7 @@ def gen_plan(streams, tier):
         else:
             st = gen_step(rnd, frnd, big=(k == 0 and rnd.random() < 0.04))
         steps.append(st)
-    return {"property": ID, "run_seed": streams.run_seed, "steps": steps}
+    return {"property": ID, "noise": (rnd.randrange(1 << 30) if rnd.random() < 0.2 else None), "run_seed": streams.run_seed, "steps": steps}
 
 
 def corpus():
@@ -294,6 +298,7 @@ def corpus():
     body = "MEEPQSDPSV EPPLSQETFS DLWKLLPENN\nVLSPLPSQAM DDLMLSPDDI\n"
     mk("fasta_grouped_numbered", ">sp|P04637\n        1 MEEPQSDPSV EPPLSQETFS 20\n       21 DLWKLLPENN 30\n\n")
     mk("plain_crlf_star", "ACDEFGHIKL\r\nMNPQRSTVWY*\r\n", fault={"chunks": [1], "eio_at": None, "open": None})
+    mk("header_longer_than_the_io_buffer", ">" + "ALPHA SKELETAL ACTIN " * 600 + "\nMKVLAAG\nACDEF\n")
     mk("second_header", ">a\nACDEF\n>b\nGHIKL\n")
     mk("second_header_directly_after_first", ">a\n>b\nACDEF\nGHIKL\n")
     mk("second_header_after_blank_line", ">a\n\n>b\nACDEF\n")
@@ -409,6 +414,9 @@ def execute(plan, ctx):
     steps = plan.get("steps")
     if steps is None:                      # single-file plan (older replay files)
         steps = [dict(plan, path=PATH)]
+    if plan.get("noise") is not None:
+        from ..noise import noise_prelude
+        noise_prelude(ctx, plan["noise"])
     rnd = ctx.streams.stream("exec")
     # the files live in a real scratch directory behind the seam, so metadata calls on the path
     # (os.stat, os.path.exists) behave as on a real disk
